@@ -22,6 +22,7 @@ import (
 	"veriftranslator/tx"
 
 	"bytes"
+	"os"
 	"fmt"
 	"go/ast"
 	"go/parser"
@@ -670,7 +671,19 @@ func genStacks() ([]byte, error) {
    visitor_newconn_args   canonical arguments of VisitorManager.NewConn in server/service.go
    pp_header_fields       (field, value) of the pp.Header literal in HandleTCPWorkConnection
    pp_field_assigns       (guard, "root.field", value) for assignments to fields of locals there
-   pp_writes              (callee, argument) of every WriteTo call there *)
+   pp_writes              (callee, argument) of every WriteTo call there
+   handshake_readers      (file, func, canonical first argument) of every msg.ReadMsg / msg.ReadMsgInto call in the functions
+                          that read a handshake message from a connection and then hand the SAME connection to the tunnel
+                          (stcp visitor handleConn, client handleReqWorkConn): a buffering reader in between swallows bytes
+   muxer_handle_events    what vhost.Muxer.handle does to a connection, in SOURCE ORDER: "arm:<SetXDeadline>" /
+                          "clear:<SetXDeadline>" (argument time.Time{}), "sniff" (v.vhostFunc), "failHook", "successHook",
+                          "checkAuth", "handoff" (send on l.accept), "?..." anything else that touches the connection
+   tcpmux_hooks           (setter, argument) of the hook registrations in tcpmux.NewHTTPConnectTCPMuxer
+   connect_response       canonical calls in HTTPConnectTCPMuxer.sendConnectResponse (what the success hook writes)
+   yamux_cfg_sites        (file, func, field, canonical value) of every assignment to a field of the yamux config at the
+                          two sites that open a session (client/connector.go Open, server/service.go HandleListener)
+   yamux_window_bytes     (file, func, MaxStreamWindowSize in bytes, -1 if not a constant) at those sites
+   yamux_default_close_timeout_ms   StreamCloseTimeout of yamux DefaultConfig() in the module cache (-1 = not found) *)
 From FRP Require Import Model.StackTypes.
 Open Scope string_scope.
 
@@ -877,5 +890,226 @@ Definition T5_translated : bool := true.
 	pairsOf("pp_header_fields", ppf)
 	fmt.Fprintf(&b, "Definition pp_field_assigns : list (string * string * string) := %s.\n\n", coqList(ppa, "    "))
 	pairsOf("pp_writes", ppw)
+	var hrd []string
+	for _, sf := range [][2]string{{"client/visitor/stcp.go", "handleConn"}, {"client/control.go", "handleReqWorkConn"}, {"client/visitor/sudp.go", "getNewVisitorConn"}} {
+		c, err := ctxOf(sf[0], sf[1])
+		if err != nil {
+			hrd = append(hrd, triple(sf[0], sf[1], "?"+tx.Sanitize(err.Error())))
+			continue
+		}
+		n := 0
+		for _, name := range []string{"ReadMsgInto", "ReadMsg"} {
+			for _, call := range findCalls(c, name) {
+				if len(call.Args) >= 1 {
+					hrd = append(hrd, triple(sf[0], sf[1], c.canon(call.Args[0])))
+					n++
+				}
+			}
+		}
+		if n == 0 {
+			hrd = append(hrd, triple(sf[0], sf[1], "?no ReadMsg call"))
+		}
+	}
+	fmt.Fprintf(&b, "Definition handshake_readers : list (string * string * string) := %s.\n\n", coqList(hrd, "    "))
+
+	// vhost muxer: order of events on a connection
+	var mev []string
+	if c, err := ctxOf("pkg/util/vhost/vhost.go", "handle"); err == nil {
+		ast.Inspect(c.fd.Body, func(n ast.Node) bool {
+			switch x := n.(type) {
+			case *ast.SendStmt:
+				if strings.HasSuffix(c.canon(x.Chan), ".accept") {
+					mev = append(mev, "handoff")
+				} else {
+					mev = append(mev, "?send "+c.canon(x.Chan))
+				}
+			case *ast.CallExpr:
+				sel, ok := x.Fun.(*ast.SelectorExpr)
+				if !ok {
+					return true
+				}
+				switch sel.Sel.Name {
+				case "SetDeadline", "SetReadDeadline", "SetWriteDeadline":
+					kind := "arm"
+					if len(x.Args) == 1 {
+						if cl, ok := x.Args[0].(*ast.CompositeLit); ok && len(cl.Elts) == 0 && typeString(cl.Type) == "time.Time" {
+							kind = "clear"
+						}
+					}
+					mev = append(mev, kind+":"+sel.Sel.Name)
+				case "vhostFunc":
+					mev = append(mev, "sniff")
+				case "failHook", "successHook", "checkAuth":
+					mev = append(mev, sel.Sel.Name)
+				case "Write", "WriteTo", "Read", "ReadFrom":
+					mev = append(mev, "?"+c.canon(x))
+				}
+			}
+			return true
+		})
+	} else {
+		mev = []string{"?" + tx.Sanitize(err.Error())}
+	}
+	var mevq []string
+	for _, e := range mev {
+		mevq = append(mevq, tx.CoqString(e))
+	}
+	strsOf("muxer_handle_events", mevq)
+
+	var hooks, cresp []string
+	if c, err := ctxOf("pkg/util/tcpmux/httpconnect.go", "NewHTTPConnectTCPMuxer"); err == nil {
+		ast.Inspect(c.fd.Body, func(n ast.Node) bool {
+			if call, ok := n.(*ast.CallExpr); ok {
+				if sel, ok := call.Fun.(*ast.SelectorExpr); ok && strings.HasPrefix(sel.Sel.Name, "Set") && strings.HasSuffix(sel.Sel.Name, "Func") && len(call.Args) == 1 {
+					hooks = append(hooks, fmt.Sprintf("(%s, %s)", tx.CoqString(sel.Sel.Name), tx.CoqString(c.canon(call.Args[0]))))
+				}
+			}
+			return true
+		})
+	}
+	pairsOf("tcpmux_hooks", hooks)
+	if c, err := ctxOf("pkg/util/tcpmux/httpconnect.go", "sendConnectResponse"); err == nil {
+		ast.Inspect(c.fd.Body, func(n ast.Node) bool {
+			switch x := n.(type) {
+			case *ast.IfStmt:
+				cresp = append(cresp, tx.CoqString("if "+c.canon(x.Cond)))
+			case *ast.ReturnStmt:
+				if len(x.Results) == 1 {
+					cresp = append(cresp, tx.CoqString("return "+c.canon(x.Results[0])))
+				}
+			}
+			return true
+		})
+	}
+	strsOf("connect_response", cresp)
+
+	// yamux session configuration
+	var ycfg, ywin []string
+	for _, sf := range [][2]string{{"client/connector.go", "Open"}, {"server/service.go", "HandleListener"}} {
+		c, err := ctxOf(sf[0], sf[1])
+		if err != nil {
+			ycfg = append(ycfg, fmt.Sprintf("(%s, %s, %s, %s)", tx.CoqString(sf[0]), tx.CoqString(sf[1]), tx.CoqString("?"), tx.CoqString(tx.Sanitize(err.Error()))))
+			continue
+		}
+		cfgVars := map[string]bool{}
+		ast.Inspect(c.fd.Body, func(n ast.Node) bool {
+			if as, ok := n.(*ast.AssignStmt); ok && len(as.Lhs) == 1 && len(as.Rhs) == 1 {
+				if call, ok := as.Rhs[0].(*ast.CallExpr); ok {
+					if sel, ok := call.Fun.(*ast.SelectorExpr); ok && sel.Sel.Name == "DefaultConfig" {
+						if id, ok := sel.X.(*ast.Ident); ok && strings.HasSuffix(c.fi.imports[id.Name], "/yamux") {
+							cfgVars[identName(as.Lhs[0])] = true
+						}
+					}
+				}
+			}
+			return true
+		})
+		win := int64(-1)
+		ast.Inspect(c.fd.Body, func(n ast.Node) bool {
+			if as, ok := n.(*ast.AssignStmt); ok && len(as.Lhs) == 1 && len(as.Rhs) == 1 {
+				if sel, ok := as.Lhs[0].(*ast.SelectorExpr); ok && cfgVars[identName(sel.X)] {
+					delete(c.defs, identName(sel.X)) // render the config variable by name, not by its definition
+					val := c.canon(as.Rhs[0])
+					val = strings.ReplaceAll(val, identName(sel.X)+".", "$cfg.")
+					ycfg = append(ycfg, fmt.Sprintf("(%s, %s, %s, %s)", tx.CoqString(sf[0]), tx.CoqString(sf[1]), tx.CoqString(sel.Sel.Name), tx.CoqString(val)))
+					if sel.Sel.Name == "MaxStreamWindowSize" {
+						if v, ok := constInt(as.Rhs[0]); ok {
+							win = v
+						}
+					}
+				}
+			}
+			return true
+		})
+		if len(cfgVars) == 0 {
+			ycfg = append(ycfg, fmt.Sprintf("(%s, %s, %s, %s)", tx.CoqString(sf[0]), tx.CoqString(sf[1]), tx.CoqString("?"), tx.CoqString("no yamux DefaultConfig() in this function")))
+		}
+		ywin = append(ywin, fmt.Sprintf("(%s, %s, (%d)%%Z)", tx.CoqString(sf[0]), tx.CoqString(sf[1]), win))
+	}
+	fmt.Fprintf(&b, "Definition yamux_cfg_sites : list (string * string * string * string) := %s.\n\n", coqList(ycfg, "    "))
+	fmt.Fprintf(&b, "Definition yamux_window_bytes : list (string * string * Z) := %s.\n\n", coqList(ywin, "    "))
+	fmt.Fprintf(&b, "Definition yamux_default_close_timeout_ms : Z := (%d)%%Z.\n", yamuxDefaultCloseTimeoutMs())
 	return b.Bytes(), nil
 }
+
+// constInt evaluates integer literals combined with * (e.g. 6 * 1024 * 1024).
+func constInt(e ast.Expr) (int64, bool) {
+	switch x := e.(type) {
+	case *ast.BasicLit:
+		if x.Kind == token.INT {
+			v, err := strconv.ParseInt(x.Value, 0, 64)
+			return v, err == nil
+		}
+	case *ast.ParenExpr:
+		return constInt(x.X)
+	case *ast.BinaryExpr:
+		a, ok1 := constInt(x.X)
+		bb, ok2 := constInt(x.Y)
+		if ok1 && ok2 && x.Op == token.MUL {
+			return a * bb, true
+		}
+	}
+	return 0, false
+}
+
+// yamuxDefaultCloseTimeoutMs reads StreamCloseTimeout of DefaultConfig() from the yamux module the repository
+// pins in go.mod (module cache), as N * time.<Unit>.
+func yamuxDefaultCloseTimeoutMs() int64 {
+	gomod, err := os.ReadFile(filepath.Join(tx.Repo, "go.mod"))
+	if err != nil {
+		return -1
+	}
+	ver := ""
+	for _, line := range strings.Split(string(gomod), "\n") {
+		f := strings.Fields(line)
+		for i := 0; i+1 < len(f); i++ {
+			if f[i] == "github.com/fatedier/yamux" && strings.HasPrefix(f[i+1], "v") {
+				ver = f[i+1] // a replace directive comes later in the file and wins
+			}
+		}
+	}
+	if ver == "" {
+		return -1
+	}
+	cache := os.Getenv("GOMODCACHE")
+	if cache == "" {
+		gp := os.Getenv("GOPATH")
+		if gp == "" {
+			home, _ := os.UserHomeDir()
+			gp = filepath.Join(home, "go")
+		}
+		cache = filepath.Join(gp, "pkg", "mod")
+	}
+	f, err := parser.ParseFile(token.NewFileSet(), filepath.Join(cache, "github.com", "fatedier", "yamux@"+ver, "mux.go"), nil, 0)
+	if err != nil {
+		return -1
+	}
+	res := int64(-1)
+	units := map[string]int64{"Millisecond": 1, "Second": 1000, "Minute": 60000, "Hour": 3600000}
+	ast.Inspect(f, func(n ast.Node) bool {
+		fd, ok := n.(*ast.FuncDecl)
+		if !ok || fd.Name.Name != "DefaultConfig" {
+			return true
+		}
+		ast.Inspect(fd, func(m ast.Node) bool {
+			kv, ok := m.(*ast.KeyValueExpr)
+			if !ok || identName(kv.Key) != "StreamCloseTimeout" {
+				return true
+			}
+			if be, ok := kv.Value.(*ast.BinaryExpr); ok && be.Op == token.MUL {
+				if v, ok := constInt(be.X); ok {
+					if sel, ok := be.Y.(*ast.SelectorExpr); ok {
+						if u, ok := units[sel.Sel.Name]; ok {
+							res = v * u
+						}
+					}
+				}
+			}
+			return false
+		})
+		return false
+	})
+	return res
+}
+
+
